@@ -25,7 +25,7 @@ theorem no_panic_of_guards (g : Guards) (hg : g.all = true) (i : Input) : (runWi
   cases he : i.entry <;> simp
   all_goals
     cases ho : i.oci <;> cases hb : i.blob <;> cases hs : i.sig <;> cases hm : i.manager <;>
-      simp [vVerify, vVerifyBlob, skipVerify, nVerify, nVerifyBlob, userMetadata, nilArgs, verifyWithStmt,
+      simp [vVerify, vVerifyBlob, vVerifyBlobGenError, skipVerify, nVerify, nVerifyBlob, userMetadata, nilArgs, verifyWithStmt,
         ho, hb, hs, hm, g1, g2, g3, g4, g5, g6, g7, g8, g9, g10, g11, failNoOutcome, failWith, okWith, panic]
 
 theorem no_panic (i : Input) : (run i).panicked = false := no_panic_of_guards _ guards_present i
@@ -52,17 +52,18 @@ theorem guards_necessary :
 
 /-- **err_consistency**, verifier level: no error means an outcome without error; a failure after
 policy selection comes with an outcome whose error is set -/
-theorem err_consistency (i : Input) (hf : i.fuzz = false) (he : i.entry = .vVerify ∨ i.entry = .vVerifyBlob) :
+theorem err_consistency (i : Input) (hf : i.fuzz = false)
+    (he : i.entry = .vVerify ∨ i.entry = .vVerifyBlob ∨ i.entry = .vVerifyBlobGenError) :
     ((run i).err = false → ∃ oc, (run i).outcome = some oc ∧ oc.hasError = false) ∧
     (policySelected i = true → (run i).err = true → ∃ oc, (run i).outcome = some oc ∧ oc.hasError = true) := by
   have hg := guards_present
   simp only [Guards.all, Bool.and_eq_true] at hg
   obtain ⟨⟨⟨⟨⟨⟨⟨⟨⟨⟨g1, g2⟩, g3⟩, g4⟩, g5⟩, g6⟩, g7⟩, g8⟩, g9⟩, g10⟩, g11⟩ := hg
   unfold run runWith policySelected
-  rcases he with he | he <;> simp only [hf, he, Bool.false_eq_true, if_false]
+  rcases he with he | he | he <;> simp only [hf, he, Bool.false_eq_true, if_false]
   all_goals
     cases ho : i.oci <;> cases hb : i.blob <;> cases hs : i.sig <;> cases hm : i.manager <;>
-      simp [vVerify, vVerifyBlob, verifyWithStmt, ho, hb, hs, hm, g9, g10, g11, failNoOutcome, failWith, okWith, panic]
+      simp [vVerify, vVerifyBlob, vVerifyBlobGenError, verifyWithStmt, ho, hb, hs, hm, g9, g10, g11, failNoOutcome, failWith, okWith, panic]
 
 /-- the wrappers never report success without an outcome that is free of error -/
 theorem wrapper_success_has_clean_outcome (i : Input) (hf : i.fuzz = false)
@@ -89,7 +90,7 @@ theorem model_holds (i : Input) : Holds i (run i) = true := by
   · cases he : i.entry <;> simp only [Bool.false_eq_true, if_false]
     all_goals
       cases ho : i.oci <;> cases hb : i.blob <;> cases hs : i.sig <;> cases hm : i.manager <;>
-        simp [Clauses.holds, vVerify, vVerifyBlob, skipVerify, nVerify, nVerifyBlob, userMetadata, nilArgs,
+        simp [Clauses.holds, vVerify, vVerifyBlob, vVerifyBlobGenError, skipVerify, nVerify, nVerifyBlob, userMetadata, nilArgs,
           verifyWithStmt, ho, hb, hs, hm, g1, g2, g3, g4, g5, g6, g7, g8, g9, g10, g11, failNoOutcome,
           failWith, okWith, panic]
   · simp [Clauses.holds]
